@@ -856,6 +856,8 @@ impl<'a, 'b> Sem<'a, 'b> {
             .choose(&[
                 "v-show", "v-foo", "v-foo-bar", "vFoo", "vFooBar", "v-x", "vX", "vShow", "v-two-words",
                 "vTwoWords", "v-Foo", "v-visible", "vVisible", "v-vv", "v-v-on",
+                // non-ASCII first letters (multi-byte in UTF-8)
+                "v-étiquette", "v-Étiquette", "v-日本",
             ])
             .to_string();
         let mut ns_arg = None;
